@@ -292,5 +292,63 @@ func c06Discipline(run *PropRun) {
 		drainFirst = before(drainB, drainI, waitB, waitI) && before(closeB, closeI, waitB, waitI)
 	}
 	run.AddObligation("tScreen.(*tScreen).disengage/stop-closed-and-tty-drained-before-wait", "discipline", BoolT(drainFirst), "disengage closes stopQ and drains the tty (which wakes a reader parked in tty.Read) before it waits for the goroutines")
+	// after Fini, PollEvent returns nil AT ONCE - also when events are still queued: a select between the stop channel
+	// and the queue picks at random among ready cases, so PollEvent has to look at the stop channel first, alone
+	if poll := e.FindFunc(modPath + ".(*baseScreen).PollEvent"); poll != nil && len(poll.Blocks) > 0 {
+		first := ""
+		okFirst := false
+		seenB := map[*ssa.BasicBlock]bool{}
+		var walk func(b *ssa.BasicBlock) bool
+		walk = func(b *ssa.BasicBlock) bool {
+			if seenB[b] {
+				return false
+			}
+			seenB[b] = true
+			for _, in := range b.Instrs {
+				switch x := in.(type) {
+				case *ssa.Select:
+					var cs []string
+					for _, st := range x.States {
+						d := "recv:"
+						if st.Dir == types.SendOnly {
+							d = "send:"
+						}
+						cs = append(cs, d+chanName(st.Chan))
+					}
+					first = fmt.Sprintf("select(blocking=%v)[%s]", x.Blocking, strings.Join(cs, ","))
+					okFirst = !x.Blocking && len(x.States) == 1 && x.States[0].Dir == types.RecvOnly && chanName(x.States[0].Chan) == "StopQ()"
+					return true
+				case *ssa.Send:
+					first = "send:" + chanName(x.Chan)
+					return true
+				case *ssa.UnOp:
+					if x.Op == token.ARROW {
+						first = "recv:" + chanName(x.X)
+						return true
+					}
+				}
+			}
+			if len(b.Succs) == 1 {
+				return walk(b.Succs[0])
+			}
+			return false
+		}
+		walk(poll.Blocks[0])
+		g := run.AddObligation("baseScreen.(*baseScreen).PollEvent/checks-stop-first", "discipline", BoolT(okFirst),
+			"PollEvent first looks at the stop channel alone (non-blocking) before it waits on queue and stop channel together: after Fini it returns nil at once even when events are still queued (first channel operation found: "+first+")")
+		g.ReplayGo = replayTest("tcell", nil, `
+	for round := 0; round < 40; round++ {
+		s := NewSimulationScreen("")
+		if err := s.Init(); err != nil { fail("init: %v", err); return }
+		for i := 0; i < 5; i++ { s.InjectKey(KeyRune, rune('a'+i), ModNone) } // the application has not polled these
+		s.Fini()
+		if ev := s.PollEvent(); ev != nil {
+			fail("PollEvent() after Fini() returned %T (round %d): with events still queued it has to return nil at once", ev, round)
+			return
+		}
+	}`)
+	} else {
+		run.Errors = append(run.Errors, "baseScreen.PollEvent not found")
+	}
 	run.AddObligation("tScreen.(*tScreen).finish/quit-closed-before-wait", "discipline", BoolT(closeFirst), "finish closes quit before finalize/disengage waits for the goroutines (blocked event deliveries are released first)")
 }
